@@ -5,15 +5,22 @@ set -e
 export GOFLAGS=-mod=mod GOPROXY=off GOSUMDB=off GOTOOLCHAIN=local
 mkdir -p /verif/build/ocaml
 (cd /verif/harness && go build -tags verif -o /verif/build/pgh ./cmd/pgh)
+if [ "$1" = "race" ]; then
+  (cd /verif/harness && go build -race -tags verif -o /verif/build/pgh-race ./cmd/pgh)
+  exit 0
+fi
 if [ "$1" != "go" ]; then
   # re-extract only when the model changed
   cd /verif/coq/extract
-  stamp=$(cat ../Base.v ../Crc.v ../Bytes.v ../Record.v ../Flat.v ../Index.v ../Spec.v ../DB.v ../DBInv.v Extract.v /verif/ocaml/*.ml | sha256sum | cut -d' ' -f1)
+  stamp=$(cat ../Base.v ../Crc.v ../Bytes.v ../Record.v ../Flat.v ../Index.v ../Spec.v ../DB.v ../DBInv.v Extract.v LockExtract.v ../Lock.v /verif/ocaml/*.ml | sha256sum | cut -d' ' -f1)
   if [ ! -f /verif/build/ocaml/modelrun ] || [ "$(cat /verif/build/ocaml/stamp 2>/dev/null)" != "$stamp" ]; then
     timeout 600 coqc -Q .. Pogreb Extract.v >/dev/null
     cd /verif/build/ocaml
     cp /verif/coq/extract/model.ml /verif/coq/extract/model.mli /verif/ocaml/driver.ml /verif/ocaml/main.ml .
     ocamlfind ocamlopt -O3 -w -a model.mli model.ml driver.ml main.ml -o modelrun
+    (cd /verif/coq/extract && timeout 600 coqc -Q .. Pogreb LockExtract.v >/dev/null)
+    cp /verif/coq/extract/lockmodel.ml /verif/coq/extract/lockmodel.mli /verif/ocaml/lockmain.ml .
+    ocamlfind ocamlopt -O3 -w -a lockmodel.mli lockmodel.ml lockmain.ml -o lockrun
     echo "$stamp" > stamp
   fi
 fi
